@@ -270,8 +270,14 @@ def m_isinstance(eng, st, args, kw, fr):
         return _ret(st, Unknown('isinstance'))
     if isinstance(v, (SInt, SBool, SFloat)):
         tt = _type_of(v)
-        ts = t if isinstance(t, tuple) else (t,)
-        return _ret(st, any(isinstance(x, type) and issubclass(tt, x) for x in ts))
+
+        def flat(x):
+            if isinstance(x, tuple):
+                for y in x:
+                    yield from flat(y)
+            else:
+                yield x
+        return _ret(st, any(isinstance(x, type) and issubclass(tt, x) for x in flat(t)))
     return _ret(st, isinstance(v, t))
 
 
